@@ -343,7 +343,11 @@ pub fn cmd_emit_crates(args: &[String]) {
     let out = arg_val(args, "--out").unwrap();
     let shard: usize = arg_val(args, "--shard").and_then(|s| s.parse().ok()).unwrap_or(0);
     let profile = arg_val(args, "--profile").unwrap_or("rich".into());
-    let mut rng = Rng::new(seed.wrapping_mul(15485863).wrapping_add(shard as u64));
+    // --as-emit: the same sequence of (spec, configuration) pairs as `emit` with this seed/shard/profile, so that a case on
+    // which the model and the implementation disagree there can be compiled here (--ids a,b,c: only these cases)
+    let as_emit = args.iter().any(|a| a == "--as-emit");
+    let only_ids: Option<Vec<usize>> = arg_val(args, "--ids").map(|s| s.split(',').filter_map(|x| x.parse().ok()).collect());
+    let mut rng = Rng::new(seed.wrapping_mul(if as_emit { 104729 } else { 15485863 }).wrapping_add(shard as u64));
     let prof = match profile.as_str() {
         "safe" => Profile::safe(),
         "wild" => Profile::wild(),
@@ -359,14 +363,14 @@ pub fn cmd_emit_crates(args: &[String]) {
     let mut expect = std::io::BufWriter::new(std::fs::File::create(format!("{}/expect_{}.txt", out, shard)).unwrap());
     let mut serde_cases = std::io::BufWriter::new(std::fs::File::create(format!("{}/serde_{}.txt", out, shard)).unwrap());
     let mut specs: Vec<(usize, Spec, Cfg)> = vec![];
-    if shard == 0 {
+    if shard == 0 && !as_emit {
         for (i, s) in crate::corpus::compile_corpus().into_iter().enumerate() {
             specs.push((900000 + i, s, Cfg { name: "Petstore".into(), derives: vec![], examples: true }));
         }
     }
     for i in 0..n {
         let s = gen_spec(&mut rng, &prof);
-        let mut c = gen_cfg(&mut rng, prof.hard_names, false);
+        let mut c = gen_cfg(&mut rng, prof.hard_names, as_emit && prof.wild);
         // derive paths would need their crates; the compile layer keeps to derives available everywhere
         c.derives.retain(|d| ["PartialEq", "  PartialEq  "].contains(&d.as_str()));
         c.derives.truncate(1);
@@ -374,7 +378,7 @@ pub fn cmd_emit_crates(args: &[String]) {
         specs.push((shard * 100000 + i, s, c));
     }
     for (id, spec, cfg) in &specs {
-        if skip_case(*id) {
+        if skip_case(*id) || only_ids.as_ref().map(|l| !l.contains(id)).unwrap_or(false) {
             continue;
         }
         let sp = ctx.spec_file(spec);
